@@ -3,8 +3,8 @@ package props
 import (
 	"encoding/json"
 	"fmt"
-	"os"
 	"math/rand"
+	"os"
 	"runtime"
 	"sort"
 	"strings"
